@@ -40,10 +40,15 @@ TEMPLATES = {
     'leaf': 'role:x',
     'XorS': 'role:x or rule:s0',
     'XandS': 'role:x and rule:s0',
+    # tokens separated by white space other than the ASCII blank
+    'notS~': 'not\u00a0rule:s0',
+    'SandS~': 'rule:s0\u3000and\u2003rule:s1',
+    'not(SorS)~': 'not\u2028(rule:s0\u00a0or\u0085rule:s1)',
 }
 NSLOTS = {'S': 1, 'notS': 1, 'SandS': 2, 'SorS': 2, 'not(SorS)': 2,
           'Sand(notS)': 2, 'Sor(SandnotS)': 3, '(SandS)ornotS': 3,
-          'not(not(S))andS': 2, 'leaf': 0, 'XorS': 1, 'XandS': 1}
+          'not(not(S))andS': 2, 'leaf': 0, 'XorS': 1, 'XandS': 1,
+          'notS~': 1, 'SandS~': 2, 'not(SorS)~': 2}
 
 
 def setup():
